@@ -253,3 +253,12 @@ Example C12_ex_refusal : forall fx used, next_addresses fx 2 used
                  ks_index := [(2, false); (1, false); (0, false)] |})
     else KErr EGapLimit.
 Proof. intros fx used. destruct fx; vm_compute; (destruct (used false 0); [reflexivity|]); destruct (used false 1); reflexivity. Qed.
+
+(* the limits of the key-chain model ARE the compiled code's (coq/Gen/Consts.v is regenerated on every run from
+   hdkeychain.HardenedKeyStart and keystore.MaxAddressesPerAccount) *)
+Require MW.Gen.Consts.
+Theorem C12_limits_are_the_code :
+  Z.of_N hardened_start = MW.Gen.Consts.HardenedKeyStart /\
+  Z.of_N max_addresses = MW.Gen.Consts.MaxAddressesPerAccount.
+Proof. split; reflexivity. Qed.
+Print Assumptions C12_limits_are_the_code.
